@@ -84,6 +84,22 @@ EXTRA = ("Prefer mechanisms that differ in KIND from everything listed below. Th
          "merchant_utils.py, modifier_parser.py) rather than expr_parser.py and merchant_engine.py unless the property lives "
          "there.  Run `git -C <your worktree> log --oneline | head -60` and make sure your change is not simply the reverse of one of those commits.  "
          "Put your two variants in two different files if the property allows.")
+EXTRA_R12 = EXTRA
+EXTRA = ("Prefer mechanisms that differ in KIND from everything listed below. This time go for FEATURE INTERACTIONS and the edges of scale, platform and time: two "
+         "features that each work but were never combined (field transforms x legacy [modifiers], most_specific x tag-only rules x priorities, supplemental "
+         "sources x views, description templates x regex delimiters, --category/--tags/--view filters x output formats, several settings files x TALLY_CONFIG, "
+         "year/title/currency settings x every output format); sizes (an empty file, a header-only file, one row, ten thousand rows, a very long line, hundreds "
+         "of rules, hundreds of views, deeply nested parentheses, numbers like 1e15 or 0.001, amounts with many decimals); platform differences (Windows path "
+         "separators and drive letters in settings, case-insensitive lookups, trailing slashes, paths with spaces or non-ASCII letters, os.sep vs '/'); time "
+         "(today's date, the TZ environment variable, year and month boundaries, 29 February, dates far in the past or future, two-digit years); process "
+         "environment (HOME unset, COLUMNS / TERM, a read-only output folder, stdout closed early by `| head`, exit codes and the stdout/stderr split that "
+         "scripts rely on); and the report's own JavaScript and HTML (spending_report.js computed properties, sorting, filtering, search, chart data, number "
+         "formatting, the data embedded by report.py) where the property touches the report.  Spread out over the code base (commands/*.py, cli.py, "
+         "config_loader.py, analyzer.py, report.py, spending_report.js, section_engine.py, format_parser.py, classification.py, parsers.py, merchant_utils.py, "
+         "modifier_parser.py) rather than expr_parser.py and merchant_engine.py unless the property lives there.  Run `git -C <your worktree> log --oneline | "
+         "head -60` and make sure your change is not simply the reverse of one of those commits.  Put your two variants in two different files if the property allows.")
+if len(sys.argv) > 2 and sys.argv[2] == 'r12':
+    EXTRA = EXTRA_R12
 if len(sys.argv) > 2 and sys.argv[2] == 'r11':
     EXTRA = EXTRA_R11
 if len(sys.argv) > 2 and sys.argv[2] == 'r9':
